@@ -18,6 +18,10 @@ const D: usize = 2;
 fn main() {
     let args: Vec<String> = std::env::args().collect();
     let prove = args.iter().any(|a| a == "--prove");
+    // --dense: gate counts 1, 4, 7, .. 121 under the settings with few queries (degrees 2^8..2^12), so that the
+    // recorded degrees cross every boundary of the blinding fixed point (build only)
+    let dense = args.iter().any(|a| a == "--dense");
+    let sizes: Vec<usize> = if dense { (0..41).map(|k| 60 * k).collect() } else { vec![1, 40, 300, 2000] };
     let strategies: Vec<(serde_json::Value, FriReductionStrategy)> = vec![
         (json!({"kind": "Const", "a": 4, "f": 5}), FriReductionStrategy::ConstantArityBits(4, 5)),
         (json!({"kind": "Const", "a": 3, "f": 2}), FriReductionStrategy::ConstantArityBits(3, 2)),
@@ -27,7 +31,10 @@ fn main() {
     ];
     for (sj, st) in strategies.iter() {
         for &(rb, cap, q) in &[(3usize, 4usize, 28usize), (3, 4, 2), (3, 0, 7), (3, 0, 1), (4, 4, 2), (3, 4, 1)] {
-            for &mults in &[1usize, 40, 300, 2000] {
+            if dense && q > 2 {
+                continue;
+            }
+            for &mults in &sizes {
                 let mut config = CircuitConfig::standard_recursion_zk_config();
                 config.security_bits = 1;
                 config.fri_config.rate_bits = rb;
@@ -47,7 +54,7 @@ fn main() {
                 let data = b.build::<C>();
                 let fp = &data.common.fri_params;
                 let mut accepted = serde_json::Value::Null;
-                if prove && data.common.degree_bits() <= 14 {
+                if prove && !dense && data.common.degree_bits() <= 14 {
                     let mut pw = PartialWitness::new();
                     pw.set_target(x, F::from_canonical_u64(3));
                     let ok = data.prove(pw).and_then(|p| data.verify(p)).is_ok();
